@@ -1,6 +1,6 @@
 #!/bin/bash
 # full regression of the machinery on the unchanged tree: all checks, the self-test corpus (incl. seeded changes),
-# the rename sweep and every stored behaviour-preserving patch.   usage: tools/regress.sh
+# the rename sweep and every stored behaviour-preserving / property-preserving feature patch.   usage: tools/regress.sh
 cd "$(dirname "$0")/.."
 fail=0
 for i in $(seq -w 1 20); do
@@ -10,7 +10,7 @@ for i in $(seq -w 1 20); do
 done
 /venv/bin/python -B selftest/run.py 2>&1 | tail -3
 /venv/bin/python -B selftest/rename.py 2>&1 | tail -1
-for b in benign/*/patch.diff; do
+for b in benign/*/patch.diff features/*/patch.diff; do
   (/venv/bin/python -B tools/eval_benign.py $b 2>&1 | tail -1) &
   while [ $(jobs -r | wc -l) -ge 8 ]; do sleep 0.5; done
 done
